@@ -22,6 +22,7 @@ func main() {
 	list := flag.Bool("list", false, "list properties")
 	manifest := flag.String("manifest", "", "write MANIFEST.json to this path and exit")
 	tags := flag.String("tags", "verif", "build tags used to load /repo (hooks guard)")
+	outDir := flag.String("out", "", "evidence directory (default <verif>/evidence)")
 	flag.Parse()
 
 	if *manifest != "" {
@@ -69,6 +70,13 @@ func main() {
 		*prop = r.Property
 		replayOb = &r.Obligation
 	}
+	if *outDir == "" {
+		*outDir = filepath.Join(*verif, "evidence")
+	}
+	evidenceDir = *outDir
+	if *prop == "all" {
+		os.Exit(runAll(*tier, *repo, *verif, *tags, seed))
+	}
 	def := registry[*prop]
 	if def == nil {
 		fmt.Fprintf(os.Stderr, "unknown property %q (use -list)\n", *prop)
@@ -115,5 +123,42 @@ func run(def *PropDef, tier, repo, verif, tags string, seed int, replayOb *Ob) (
 		fmt.Printf("replay: obligation %s %s no longer exists in the current tree\n", replayOb.Rule, replayOb.Key)
 		return 0
 	}
-	return c.finish(def, known, filepath.Join(verif, "evidence"), time.Since(start).Seconds(), seed, extra)
+	return c.finish(def, known, evidenceDir, time.Since(start).Seconds(), seed, extra)
+}
+
+var evidenceDir string
+
+// runAll analyses the tree once and runs every property's rules (used for mutant sweeps).
+func runAll(tier, repo, verif, tags string, seed int) (code int) {
+	known, err := loadKnown(filepath.Join(verif, "known_findings.json"))
+	if err != nil {
+		fmt.Fprintln(os.Stderr, err)
+		return 2
+	}
+	P, err := Load(repo, tags, false, nil)
+	if err != nil {
+		fmt.Fprintf(os.Stderr, "UNDECIDED load: %v\n", err)
+		return 2
+	}
+	for _, id := range propIDs() {
+		def := registry[id]
+		func() {
+			start := time.Now()
+			defer func() {
+				if r := recover(); r != nil {
+					fmt.Fprintf(os.Stderr, "checker panic in %s: %v\n%s\n", id, r, debug.Stack())
+					if code < 2 {
+						code = 2
+					}
+				}
+			}()
+			c := newCheck(P, id, tier)
+			def.Run(c)
+			rc := c.finish(def, known, evidenceDir, time.Since(start).Seconds(), seed, map[string]interface{}{})
+			if rc > code {
+				code = rc
+			}
+		}()
+	}
+	return code
 }
